@@ -163,9 +163,7 @@ Record gstrs_args := mkGstrs { gt_trans : Z; gt_L : mat; gt_U : mat; gt_B : mat 
 
 Definition gstrs_check (p : prec) (a : gstrs_args) : Z :=
   let L := gt_L a in let U := gt_U a in let B := gt_B a in
-  if (if is_complex p
-      then neqb (gt_trans a) c_NOTRANS && neqb (gt_trans a) c_TRANS && neqb (gt_trans a) c_CONJ
-      else neqb (gt_trans a) c_NOTRANS && neqb (gt_trans a) c_TRANS) then -1
+  if neqb (gt_trans a) c_NOTRANS && neqb (gt_trans a) c_TRANS && neqb (gt_trans a) c_CONJ then -1
   else if neqb (m_nr L) (m_nc L) || (m_nr L <? 0) then -3
   else if neqb (m_nr U) (m_nc U) || (m_nr U <? 0) then -4
   else if m_lda B <? c_max 0 (m_nr L) then -6
@@ -232,15 +230,15 @@ Definition trsv_check (p : prec) (a : trsv_args) : Z :=
 
 Definition trsv_run (p : prec) (a : trsv_args) : outcome := leave (trsv_check p a) 0 false.
 
-(* What ?gstrs leaves in *info when its own tests pass (SRC/zgstrs.c:290-306): for trans = CONJ the
-   complex twins call, for each right-hand side, sp_?trsv("U","C","N",L,U,..,info) and
-   sp_?trsv("L","C","U",L,U,..,info); each call starts with *info = 0 and runs the test chain above.
-   All other paths leave *info = 0 (trans = TRANS passes "T"). *)
+(* What ?gstrs leaves in *info when its own tests pass (SRC/zgstrs.c:290-312): for trans = TRANS and for
+   trans = CONJ (complex: conj(inv(A**T) conj(b)); real: same as TRANS) it calls, for each right-hand side,
+   sp_?trsv("U","T","N",L,U,..,info) and sp_?trsv("L","T","U",L,U,..,info); each call starts with *info = 0 and
+   runs the test chain above, which "T" passes whenever ?gstrs' own dimension tests passed. *)
 Definition gstrs_final_info (p : prec) (a : gstrs_args) : Z :=
   let i := gstrs_check p a in
   if neqb i 0 then i
-  else if is_complex p && (gt_trans a =? c_CONJ) && (0 <? m_nc (gt_B a))
-       then trsv_check p (mkTrsv ch_L ch_C ch_U (gt_L a) (gt_U a))
+  else if negb (gt_trans a =? c_NOTRANS) && (0 <? m_nc (gt_B a))
+       then trsv_check p (mkTrsv ch_L ch_T ch_U (gt_L a) (gt_U a))
        else 0.
 
 (* ------------------------------------------------------------------ sp_?gemv (SRC/dsp_blas2.c:387-400) *)
@@ -314,13 +312,11 @@ Definition gssvx_wf (a : gssvx_args) : Prop :=
   m_nr (gx_A a) <= Z.of_nat (length (gx_R a)) /\ m_nc (gx_A a) <= Z.of_nat (length (gx_C a)).
 
 (* ?gstrs(trans, L, U, perm_r, perm_c, B, Gstat, info)   header of SRC/dgstrs.c.
-   trans: NOTRANS or TRANS; the complex twins also implement CONJ (A^H), which the drivers'
-   documentation relies on, so CONJ is taken as documented for c,z.
+   trans: NOTRANS, TRANS or CONJ (A^H; for real matrices the same as TRANS), as the drivers' documentation relies on.
    L "has types Stype = SCP, Dtype = _D, Mtype = TRLU", U "Stype = NCP, Dtype = _D, Mtype = TRU",
    B "Stype = DN, Dtype = _D, Mtype = GE". *)
 Definition doc_gstrs (p : prec) : list (Z * (gstrs_args -> bool)) :=
-  [ (1, fun a => memZ (gt_trans a) (if is_complex p then [c_NOTRANS; c_TRANS; c_CONJ]
-                                    else [c_NOTRANS; c_TRANS]));
+  [ (1, fun a => memZ (gt_trans a) [c_NOTRANS; c_TRANS; c_CONJ]);
     (2, fun a => square_nonneg (gt_L a) && l_types p (gt_L a));
     (3, fun a => square_nonneg (gt_U a) && u_types p (gt_U a));
     (6, fun a => dn_types p (gt_B a) && (0 <=? m_nc (gt_B a)) && (m_nr (gt_L a) <=? m_lda (gt_B a))) ].
